@@ -31,3 +31,28 @@ mod base;
 mod rrdp;
 mod rsync;
 
+
+// Access to the RRDP collector proper for the verification harness.
+#[cfg(feature = "verif-hooks")]
+pub mod verif_rrdp {
+    pub use super::rrdp::{Collector, LoadResult, ReadRepository, Run};
+}
+
+/// Names of otherwise private items for the verification harness.
+#[cfg(feature = "verif-hooks")]
+pub mod verif_api {
+    pub use super::rrdp::{
+        Collector as RrdpCollector, LoadResult, ReadRepository,
+        Run as RrdpRun,
+    };
+    pub use super::rrdp::verif_http::{
+        HttpClient, HttpResponse, LimitedDataRead, LimitedDataReadError,
+    };
+    pub use super::rsync::{Collector as RsyncCollector, Run as RsyncRun};
+}
+
+/// The persisted RRDP record types for the verification harness (codec checks).
+#[cfg(feature = "verif-hooks")]
+pub mod verif_codec {
+    pub use super::rrdp::verif_codec::{RepositoryState, RrdpObjectMeta};
+}
